@@ -24,6 +24,7 @@ for m in MUTANTS:
         s = open(p).read()
         if s.count(m["old"]) != 1:
             res.append((m["prop"], m["name"], "MUTANT-DOES-NOT-APPLY (%d matches)" % s.count(m["old"])))
+            print("%s %-40s %s" % res[-1], flush=True)
             continue
         open(p, "w").write(s.replace(m["old"], m["new"]))
         env = dict(os.environ, VERIF_REPO=d)
